@@ -15,6 +15,7 @@ RULE = ("Histories of solve() calls on three long-lived instances (default AtomB
         "failing below nested parentheses. Oracle: a FRESH instance "
         "of the same configuration created for that call must give the same value, or both must raise the same "
         "exception type. Non-trivial: the history contains a failing solve with >=1 token already stored followed "
+        "Round 4: fresh-instance answers are taken BEFORE the history as well (process-wide state), numpy error handling must be what it was after every call, names ending in e next to a sign. "
         "later by an expression that succeeds on the fresh instance. Distinct = distinct case JSON.")
 ASSUMPTIONS = ["single-threaded histories", "exception messages are not compared (they embed token reprs), only the type"]
 NT_FLOOR = 0.15
